@@ -93,6 +93,8 @@ def build_harness(ctx, cfg, cfiles, name):
     extra = []
     if not os.path.exists(os.path.join(VERIF, "harness", "c07_hl.h")):
         extra.append("-DC07_NO_HL")
+    if not os.path.exists(os.path.join(VERIF, "harness", "c07_core.h")):
+        extra.append("-DC07_NO_CORE")
     return ctx.cc("harness/c07.c", cfg, extra=extra + paths, name="c07-" + name)
 
 
@@ -201,6 +203,7 @@ def math_ops(rng, tier, w):
                 ops.append("run %s %s_deep 2 %d %d %d %d %d %d" % (fn, fn, n, m, n, m, rng.randrange(0, 4), sd()))
             ops.append("run zzJacobi zzJacobi_deep 2 %d %d %d %d %d" % (n, m, n, m, sd()))
             ops.append("run ppGCD ppGCD_deep 2 %d %d %d %d %d" % (n, m, n, m, sd()))
+            ops.append("run ppExGCD ppExGCD_deep 2 %d %d %d %d %d" % (n, m, n, m, sd()))
             for kind in (0, 1, 2, 3):
                 ops.append("run zzMod zzMod_deep 2 %d %d %d %d %d %d" % (n, m, n, m, kind, sd()))
                 ops.append("run ppMod ppMod_deep 2 %d %d %d %d %d %d" % (n, m, n, m, kind % 2, sd()))
@@ -233,6 +236,13 @@ def hl_ops():
     return [o for o in ops if not re.fullmatch(r"hl pfok \d+ \d+ \d+ 2", o) and not o.startswith("hl stb99")]
 
 
+def core_ops():
+    p = os.path.join(VERIF, "gen", "c07_core_ops.txt")
+    if not os.path.exists(p) or not os.path.exists(os.path.join(VERIF, "harness", "c07_core.h")):
+        return []
+    return [l.strip() for l in open(p) if l.strip() and not l.startswith("#")]
+
+
 def corpus():
     p = os.path.join(VERIF, "gen", "c07_corpus.txt")
     if not os.path.exists(p):
@@ -244,55 +254,64 @@ def corpus():
 HWRE = re.compile(r" hw=(\d+)$")
 
 
+def _run_raw(exe, lines, env=None, timeout=900):
+    """-> (complete output lines, stderr, rc).  A trailing partial line (crash after printing) is dropped."""
+    e = dict(os.environ)
+    e.setdefault("ASAN_OPTIONS", "detect_leaks=0:abort_on_error=0:allocator_may_return_null=1")
+    if env:
+        e.update(env)
+    p = subprocess.run([exe], input="\n".join(lines) + "\n", capture_output=True, text=True, env=e, timeout=timeout)
+    out = p.stdout.split("\n")
+    out = out[:-1]          # text after the last newline is either empty or a partial line
+    return out, p.stderr, p.returncode
+
+
+def _fam(o):
+    return " ".join(o.split()[:2])
+
+
 def run_cfg(ctx, exe, w, ops, label):
     """C harness (with high-water marks) vs Lean driver; returns (problems, stats).
-    problems: list of (kind, op, c_out, lean_out)"""
-    lines = ["cfg " + w] + ops
+    problems: list of (kind, op, c_out, lean_out).
+    Every op gets exactly one C result: its output line, CRASH(...) (the op during which the process died;
+    the stream is restarted after it) or SKIPPED (a later op of a family that already crashed: one report
+    per family).  The bookkeeping is by op index, so a crash can never shift or hide another op's result."""
     problems = []
-    c_out, c_err, rc = ctx.run_lines(exe, ops, env={"C07_HW": "1"}, timeout=900)
-    crashed = None
-    if rc != 0 or len(c_out) != len(ops):
-        k = min(len(c_out), len(ops) - 1)
-        msg = c_err.strip().split("\n")
+    res = [None] * len(ops)
+    pending = list(range(len(ops)))
+    dead = set()
+    restarts = 0
+    while pending:
+        out, err, rc = _run_raw(exe, [ops[i] for i in pending], env={"C07_HW": "1"})
+        if rc == 0 and len(out) == len(pending):
+            for i, o in zip(pending, out):
+                res[i] = o
+            break
+        k = min(len(out), len(pending) - 1)
+        for i, o in zip(pending[:k], out[:k]):
+            res[i] = o
+        msg = err.strip().split("\n")
         summ = [l for l in msg if "ERROR" in l or "SUMMARY" in l or "Assertion" in l or "runtime error" in l][:3]
-        crashed = (k, ops[k], "CRASH(rc=%d): %s" % (rc, " | ".join(summ) or msg[-1][:200]))
-        problems.append(("crash", ops[k], crashed[2], ""))
-        # continue after the crashing op so that one defect does not hide the others (max 25 restarts)
-        def fam(o):
-            t = o.split()
-            return " ".join(t[:2])
-        dead = {fam(ops[k])}
-        skipped_idx = []
-        rest, base, restarts = ops[k + 1:], k + 1, 0
-        c_out = c_out[:k] + [crashed[2]]
-        # one report per function family: later ops of a family that already crashed are skipped
-        alive = [o for o in rest if fam(o) not in dead]
-        ops = ops[:k + 1] + alive
-        rest = alive
-        while rest and restarts < 40:
-            o2, e2, rc2 = ctx.run_lines(exe, rest, env={"C07_HW": "1"})
-            if rc2 == 0 and len(o2) == len(rest):
-                c_out += o2
-                rest = []
-                break
-            k2 = min(len(o2), len(rest) - 1)
-            msg = e2.strip().split("\n")
-            summ = [l for l in msg if "ERROR" in l or "SUMMARY" in l or "Assertion" in l][:3]
-            txt = "CRASH(rc=%d): %s" % (rc2, " | ".join(summ) or msg[-1][:200])
-            problems.append(("crash", rest[k2], txt, ""))
-            c_out += o2[:k2] + [txt]
-            dead.add(fam(rest[k2]))
-            done_n = len(c_out)
-            rest = [o for o in rest[k2 + 1:] if fam(o) not in dead]
-            ops = ops[:done_n] + rest
-            restarts += 1
-        c_out += ["SKIPPED"] * len(rest)
+        ci = pending[k]
+        res[ci] = "CRASH(rc=%d): %s" % (rc, " | ".join(summ) or msg[-1][:200])
+        problems.append(("crash", ops[ci], res[ci], ""))
+        dead.add(_fam(ops[ci]))
+        restarts += 1
+        nxt = []
+        for i in pending[k + 1:]:
+            if _fam(ops[i]) in dead or restarts > 60:
+                res[i] = "SKIPPED"
+            else:
+                nxt.append(i)
+        pending = nxt
+    c_out = res
     lines = ["cfg " + w] + ops
     l_out, l_err, lrc = ctx.run_lines(ctx.driver(), lines)
     if lrc != 0 or len(l_out) != len(lines):
         raise RuntimeError("Lean driver failed (rc=%d) on %s: %s" % (lrc, label, l_err[-500:]))
     l_out = l_out[1:]
-    stats = {"ops": len(ops), "tight": 0, "measured": 0, "max_ratio_pct": 0}
+    stats = {"ops": len(ops), "tight": 0, "measured": 0, "crashed": sum(1 for c in c_out if c.startswith("CRASH")),
+             "skipped_after_family_crash": sum(1 for c in c_out if c == "SKIPPED")}
     for op, c, l in zip(ops, c_out, l_out):
         if c.startswith("CRASH") or c == "SKIPPED":
             continue
@@ -326,14 +345,15 @@ def valgrind_run(ctx, exe, ops, label):
         return None
     bad = []
     log = os.path.join(ctx.scratch, "vg-%s.log" % label)
+    venv = dict(os.environ, C07_SINK="1")
     p = subprocess.run([vg, "-q", "--error-exitcode=77", "--track-origins=no", "--log-file=" + log, exe],
-                       input="\n".join(ops) + "\n", capture_output=True, text=True)
+                       input="\n".join(ops) + "\n", capture_output=True, text=True, env=venv)
     if p.returncode == 77 or (os.path.exists(log) and os.path.getsize(log) > 0):
         rep = open(log).read()
-        if "uninitialised" in rep or "Invalid" in rep or "Conditional jump" in rep:
+        if "uninitialised" in rep or "Invalid" in rep or "Conditional jump" in rep or "Process terminating" in rep:
             # locate: re-run ops one by one (bounded)
             for op in ops[:4000]:
-                q = subprocess.run([vg, "-q", "--error-exitcode=77", exe], input=op + "\n", capture_output=True, text=True)
+                q = subprocess.run([vg, "-q", "--error-exitcode=77", exe], input=op + "\n", capture_output=True, text=True, env=venv)
                 if q.returncode == 77:
                     bad.append((op, q.stderr[-1500:]))
                     if len(bad) >= 5:
@@ -388,7 +408,7 @@ def run(ctx):
         cfg = CFGS[w]
         exe = build_harness(ctx, cfg, info[w]["cfiles"], w)
         exes[w] = exe
-        ops = corpus() + deep_ops(info[w], ctx.rng, ctx.tier, w) + math_ops(ctx.rng, ctx.tier, w) + hl_ops()
+        ops = corpus() + deep_ops(info[w], ctx.rng, ctx.tier, w) + math_ops(ctx.rng, ctx.tier, w) + hl_ops() + core_ops()
         if not driver_ok:
             # the generated definitions do not compile: the C side still runs (oracle), no comparison
             c_out, c_err, rc = ctx.run_lines(exe, ops, env={"C07_HW": "1"})
@@ -406,7 +426,7 @@ def run(ctx):
     try:
         exe_rel = build_harness(ctx, "rel", info["W64"]["cfiles"], "rel")
         vops = math_ops(ctx.rng, "quick", "W64")
-        hops = hl_ops()
+        hops = hl_ops() + core_ops()
         if ctx.tier == "quick":
             vops = [o for i, o in enumerate(vops) if i % 9 == 0][:160]
             hops = [o for i, o in enumerate(hops) if i % 12 == 0][:40]
@@ -509,7 +529,8 @@ def replay(ctx, path):
     bad = 0
     for op in ops:
         if cfgw == "REL":
-            q = subprocess.run(["valgrind", "-q", "--error-exitcode=77", exe], input=op + "\n", capture_output=True, text=True)
+            q = subprocess.run(["valgrind", "-q", "--error-exitcode=77", exe], input=op + "\n", capture_output=True, text=True,
+                               env=dict(os.environ, C07_SINK="1"))
             ok = q.returncode == 0
             print("%s -> %s" % (op, q.stdout.strip() if ok else "valgrind: " + q.stderr[-400:]))
         else:
